@@ -3,7 +3,7 @@ import collections
 import math
 
 PROP = "C12"
-LEAN_MODS = ["Cte.Props.C12", "Cte.Props.C12Origins"]
+LEAN_MODS = ["Cte.Props.C12", "Cte.Props.C12Origins", "Cte.Props.C12Gains"]
 HARNESS = "c12"
 N = {"quick": 120, "thorough": 3000}
 CORRESPONDENCES = ["obstruction factor of every window from the per-hour inputs (definition; two decimals, tie-aware)",
